@@ -9,7 +9,7 @@ def main():
     chk = common.Check('C17', argv=['quick'])
     work = M.Work()
     try:
-        for name, n in [('po_spellings', 150), ('transcodings', 150), ('mo_layouts', 150), ('po_vs_mo', 150)]:
+        for name, n in [('po_spellings', 150), ('transcodings', 150), ('mo_layouts', 150), ('po_vs_mo', 150), ('packages', 16)]:
             if len(sys.argv) > 1 and name not in sys.argv[1:]:
                 continue
             stats = collections.Counter()
@@ -17,12 +17,14 @@ def main():
             found = getattr(F, name)(chk, work, n, stats)
             print(name, round(time.time() - t, 1), 's', dict(stats))
             for f in found[:2]:
-                print(json.dumps({k: v for k, v in f.items() if k not in ('first', 'second')}, indent=1, ensure_ascii=False)[:1500])
-                print('--- first\n' + f['first']['text'][:800])
-                print('--- second\n' + f['second']['text'][:800])
-                print('\n'.join(f['first']['diagnostics'][:12]))
-                print('---')
-                print('\n'.join(f['second']['diagnostics'][:12]))
+                print('MISMATCH', json.dumps(f.get('mismatch'), ensure_ascii=False)[:1500])
+                print(json.dumps({k: v for k, v in f.items() if k not in ('first', 'second', 'package_hex', 'members')}, indent=1, ensure_ascii=False)[:3000])
+                if 'first' in f:
+                    print('--- first\n' + f['first']['text'][:800])
+                    print('--- second\n' + f['second']['text'][:800])
+                    print('\n'.join(f['first']['diagnostics'][:12]))
+                    print('---')
+                    print('\n'.join(f['second']['diagnostics'][:12]))
     finally:
         work.close()
 
